@@ -4,11 +4,14 @@
 //! store through a hook, on the virtual clock, against a reference model).
 //!
 //! Determinism: `Registrations` draws random ids and iterates a `HashMap` (which registration a
-//! `limit = 1` discovery returns depends on the hash seed). Every system instance therefore
-//! lives on its own *fresh* OS thread started right after an entropy reset, so that the hash
-//! seeds and the thread RNG are a function of the seed alone; the BFS thread talks to it through
-//! a spin hand-off. Exactly one instance is alive at any time (virtual clock / timer registry are
-//! process-global).
+//! `limit = 1` discovery returns depends on the hash seed of that instance, and std gives every
+//! new `HashMap` of a thread the next seed). The whole exploration therefore runs on one fresh
+//! thread after an entropy reset with a *constant* seed (counts do not depend on VERIF_SEED), the
+//! hash-seed position ("salt") of the instance is part of every violation case, and `--replay`
+//! advances the thread's seed counter to that position before building the system, so the
+//! replayed instance iterates in exactly the recorded order. The pick among several eligible
+//! registrations under `limit = 1` is *not* enumerated (one hash order per execution); the
+//! oracle does not depend on it.
 //!
 //! Oracle = the statement, no more:
 //!  * a registration is accepted only with min_ttl <= ttl <= max_ttl;
@@ -31,8 +34,7 @@ use mc::bfs::{self, System};
 use mc::{json, Ctx, Meta, Outcome};
 use serde::{Deserialize, Serialize};
 use std::collections::{BTreeMap, BTreeSet};
-use std::sync::atomic::{AtomicBool, AtomicU64, Ordering::SeqCst};
-use std::sync::{Arc, Mutex};
+use std::sync::atomic::{AtomicU64, Ordering::SeqCst};
 use std::task::{Context, Poll};
 use std::time::Duration;
 
@@ -58,14 +60,13 @@ pub enum Act {
     Advance(u64),
 }
 
-// ---------------------------------------------------------------- worker thread (fresh per system)
+// ---------------------------------------------------------------- real store + helpers
 
 enum Cmd {
     Add(u8, u8, u64, u32),
     Remove(u8, u8),
     Get(Option<u8>, Option<Vec<u8>>, Option<u64>),
     Advance(u64),
-    Quit,
 }
 #[derive(Debug)]
 enum Reply {
@@ -73,39 +74,10 @@ enum Reply {
     Unit,
     /// registrations as (ident, peer, ns), new cookie wire bytes
     Get(Result<(Vec<(u32, u8, u8)>, Vec<u8>), ()>),
-    Expired(Vec<u32>),
-    Panic(String),
 }
 struct Resp {
     reply: Reply,
-    /// expired registrations reported by the poll that follows every command
-    expired: Vec<u32>,
     sizes: (usize, usize, usize),
-}
-
-struct Slot<T>(Mutex<Option<T>>, AtomicBool);
-impl<T> Slot<T> {
-    fn new() -> Arc<Self> {
-        Arc::new(Slot(Mutex::new(None), AtomicBool::new(false)))
-    }
-    fn put(&self, v: T) {
-        *self.0.lock().unwrap() = Some(v);
-        self.1.store(true, SeqCst);
-    }
-    fn take(&self) -> T {
-        let mut n = 0u32;
-        loop {
-            if self.1.swap(false, SeqCst) {
-                return self.0.lock().unwrap().take().expect("slot filled");
-            }
-            n += 1;
-            if n > 20_000 {
-                std::thread::yield_now();
-            } else {
-                std::hint::spin_loop();
-            }
-        }
-    }
 }
 
 fn ns(i: u8) -> Namespace {
@@ -121,60 +93,24 @@ fn ident_of(r: &libp2p_rendezvous::Registration) -> u32 {
     use multiaddr::Protocol;
     r.record.addresses().first().and_then(|a| a.iter().find_map(|p| if let Protocol::Tcp(port) = p { Some(port as u32) } else { None })).unwrap_or(0)
 }
-
-fn worker(cmd: Arc<Slot<Cmd>>, resp: Arc<Slot<Resp>>) {
-    let cfg = Config::default().with_min_ttl(MIN_TTL).with_max_ttl(MAX_TTL).with_max_registration_per_peer(PER_PEER).with_max_registration_total(TOTAL);
-    let mut regs = VRegistrations::new(cfg);
-    // draw the thread RNG seed now (inside `new`), so that all entropy is consumed before the
-    // system is handed to the explorer
-    let w = futures::task::noop_waker();
-    let mut drain = |regs: &mut VRegistrations| -> Vec<u32> {
-        let mut cx = Context::from_waker(&w);
-        let mut v = Vec::new();
-        while let Poll::Ready(r) = regs.poll(&mut cx) {
-            v.push(ident_of(&r));
-            if v.len() > 64 {
-                break;
-            }
-        }
-        v
-    };
-    let _ = drain(&mut regs);
-    resp.put(Resp { reply: Reply::Unit, expired: vec![], sizes: regs.sizes() });
-    loop {
-        let c = cmd.take();
-        if let Cmd::Quit = c {
-            return;
-        }
-        let r = mc::catch(|| {
-            let reply = match c {
-                Cmd::Add(p, n, ttl, ident) => {
-                    let rec = PeerRecord::new(&keypair(p + 1), vec![addr(&format!("/ip4/10.0.0.1/tcp/{ident}"))]).expect("sign");
-                    Reply::Add(regs.add(ns(n), rec, Some(ttl)).map(|r| ident_of(&r)).map_err(|e| format!("{e:?}")))
-                }
-                Cmd::Remove(p, n) => {
-                    regs.remove(ns(n), peer(p + 1));
-                    Reply::Unit
-                }
-                Cmd::Get(n, cookie, limit) => {
-                    let cookie = cookie.map(|b| Cookie::from_wire_encoding(b).expect("cookie wire encoding"));
-                    Reply::Get(regs.get(n.map(ns), cookie, limit).map(|(rs, c)| (rs.iter().map(|r| (ident_of(r), pidx(&r.record.peer_id()), ns_idx(&r.namespace))).collect(), c.into_wire_encoding())))
-                }
-                Cmd::Advance(d) => {
-                    mc::vclock::advance(Duration::from_secs(d));
-                    libp2p_swarm::verif_delay::fire_due();
-                    Reply::Expired(vec![])
-                }
-                Cmd::Quit => unreachable!(),
-            };
-            let expired = drain(&mut regs);
-            (reply, expired)
-        });
-        match r {
-            Ok((reply, expired)) => resp.put(Resp { reply, expired, sizes: regs.sizes() }),
-            Err(p) => resp.put(Resp { reply: Reply::Panic(format!("panic at {} :: {p}", mc::shim::last_panic_loc().unwrap_or_default())), expired: vec![], sizes: (0, 0, 0) }),
+/// signed records are cached per (peer, ident): signing is the expensive part of a step
+fn record(p: u8, ident: u32) -> PeerRecord {
+    thread_local! { static CACHE: std::cell::RefCell<BTreeMap<(u8, u32), PeerRecord>> = const { std::cell::RefCell::new(BTreeMap::new()) }; }
+    CACHE.with(|c| c.borrow_mut().entry((p, ident)).or_insert_with(|| PeerRecord::new(&keypair(p + 1), vec![addr(&format!("/ip4/10.0.0.1/tcp/{ident}"))]).expect("sign")).clone())
+}
+/// position of the thread's HashMap seed counter, as a fingerprint
+fn salt_now() -> u64 {
+    use std::hash::BuildHasher;
+    std::collections::hash_map::RandomState::new().hash_one(0u64)
+}
+/// advance the thread's HashMap seed counter until its fingerprint is `salt`
+fn align_salt(salt: u64) -> bool {
+    for _ in 0..200_000_000u64 {
+        if salt_now() == salt {
+            return true;
         }
     }
+    false
 }
 
 // ---------------------------------------------------------------- reference model
@@ -194,9 +130,8 @@ static G_COOKIE_FILTERED: AtomicU64 = AtomicU64::new(0);
 static G_MISMATCH: AtomicU64 = AtomicU64::new(0);
 
 pub struct Sys {
-    cmd: Arc<Slot<Cmd>>,
-    resp: Arc<Slot<Resp>>,
-    handle: Option<std::thread::JoinHandle<()>>,
+    regs: VRegistrations,
+    pub salt: u64,
     now: u64,
     next_ident: u32,
     /// (peer, ns) -> (ident, deadline)
@@ -211,34 +146,61 @@ pub struct Sys {
     proj: (Vec<(u32, u8, u8)>, (usize, usize)),
 }
 
-impl Drop for Sys {
-    fn drop(&mut self) {
-        self.cmd.put(Cmd::Quit);
-        if let Some(h) = self.handle.take() {
-            let _ = h.join();
-        }
-    }
-}
-
 impl Sys {
-    pub fn new(seed: u64) -> Self {
-        mc::entropy::reset(seed);
+    pub fn new() -> Self {
+        Self::build(salt_now())
+    }
+    /// `salt` = fingerprint of the thread's hash-seed counter consumed just before this call
+    pub fn build(salt: u64) -> Self {
         mc::vclock::reset();
         libp2p_swarm::verif_delay::reset_registry();
-        let cmd = Slot::new();
-        let resp = Slot::new();
-        let (c2, r2) = (cmd.clone(), resp.clone());
-        let handle = std::thread::Builder::new().stack_size(4 << 20).spawn(move || worker(c2, r2)).expect("spawn");
-        let _ = resp.take();
-        Sys { cmd, resp, handle: Some(handle), now: 0, next_ident: 1, live: BTreeMap::new(), dead: BTreeMap::new(), zombies: Vec::new(), cookies: Vec::new(), proj: (Vec::new(), (0, 0)) }
+        let cfg = Config::default().with_min_ttl(MIN_TTL).with_max_ttl(MAX_TTL).with_max_registration_per_peer(PER_PEER).with_max_registration_total(TOTAL);
+        let mut s = Sys { regs: VRegistrations::new(cfg), salt, now: 0, next_ident: 1, live: BTreeMap::new(), dead: BTreeMap::new(), zombies: Vec::new(), cookies: Vec::new(), proj: (Vec::new(), (0, 0)) };
+        s.drain();
+        s
+    }
+    /// poll the expiry stream until Pending (registers the wakers of new timers)
+    fn drain(&mut self) -> Vec<u32> {
+        let w = futures::task::noop_waker();
+        let mut cx = Context::from_waker(&w);
+        let mut v = Vec::new();
+        while let Poll::Ready(r) = self.regs.poll(&mut cx) {
+            v.push(ident_of(&r));
+            if v.len() > 64 {
+                break;
+            }
+        }
+        v
     }
     fn call(&mut self, c: Cmd) -> Result<Resp, String> {
-        self.cmd.put(c);
-        let r = self.resp.take();
-        if let Reply::Panic(m) = &r.reply {
-            return Err(m.clone());
+        let salt = self.salt;
+        let r = mc::catch(|| {
+            let regs = &mut self.regs;
+            let reply = match c {
+                Cmd::Add(p, n, ttl, ident) => Reply::Add(regs.add(ns(n), record(p, ident), Some(ttl)).map(|r| ident_of(&r)).map_err(|e| format!("{e:?}"))),
+                Cmd::Remove(p, n) => {
+                    regs.remove(ns(n), peer(p + 1));
+                    Reply::Unit
+                }
+                Cmd::Get(n, cookie, limit) => {
+                    let cookie = cookie.map(|b| Cookie::from_wire_encoding(b).expect("cookie wire encoding"));
+                    Reply::Get(regs.get(n.map(ns), cookie, limit).map(|(rs, c)| (rs.iter().map(|r| (ident_of(r), pidx(&r.record.peer_id()), ns_idx(&r.namespace))).collect(), c.into_wire_encoding())))
+                }
+                Cmd::Advance(d) => {
+                    mc::vclock::advance(Duration::from_secs(d));
+                    libp2p_swarm::verif_delay::fire_due();
+                    Reply::Unit
+                }
+            };
+            reply
+        });
+        match r {
+            Ok(reply) => {
+                let _ = mc::catch(|| self.drain()).map_err(|p| format!("panic at {} :: {p} [salt={salt}]", mc::shim::last_panic_loc().unwrap_or_default()))?;
+                Ok(Resp { reply, sizes: self.regs.sizes() })
+            }
+            Err(p) => Err(format!("panic at {} :: {p} [salt={salt}]", mc::shim::last_panic_loc().unwrap_or_default())),
         }
-        Ok(r)
     }
     fn kill(&mut self, key: (u8, u8), why: &'static str) {
         if let Some((ident, deadline)) = self.live.remove(&key) {
@@ -274,40 +236,8 @@ impl Sys {
     }
 }
 
-impl System for Sys {
-    type Action = Act;
-    fn actions(&self) -> Vec<Act> {
-        let mut v = Vec::new();
-        for p in 0..2u8 {
-            for n in 0..3u8 {
-                let ttls: &[u64] = if n == 0 { &[1, 2, 10, 11] } else { &[2, 10] };
-                for t in ttls {
-                    v.push(Act::Reg(p, n, *t));
-                }
-            }
-        }
-        for p in 0..2u8 {
-            for n in 0..3u8 {
-                v.push(Act::Unreg(p, n));
-            }
-        }
-        for n in [3u8, 0, 1] {
-            for c in 0..4u8 {
-                if (c == 1 && self.cookies.is_empty()) || (c == 2 && self.cookies.len() < 2) {
-                    continue;
-                }
-                v.push(Act::Disc(n, c, false));
-                if c != 3 {
-                    v.push(Act::Disc(n, c, true));
-                }
-            }
-        }
-        v.push(Act::Advance(1));
-        v.push(Act::Advance(8));
-        v
-    }
-
-    fn step(&mut self, a: &Act) -> Result<(), String> {
+impl Sys {
+    fn step_inner(&mut self, a: &Act) -> Result<(), String> {
         match a {
             Act::Reg(p, n, ttl) => {
                 let ident = self.next_ident;
@@ -410,6 +340,45 @@ impl System for Sys {
         self.proj = (regs, (r.sizes.0, r.sizes.1));
         Ok(())
     }
+}
+
+impl System for Sys {
+    type Action = Act;
+    fn actions(&self) -> Vec<Act> {
+        let mut v = Vec::new();
+        for p in 0..2u8 {
+            for n in 0..3u8 {
+                let ttls: &[u64] = if n == 0 { &[1, 2, 10, 11] } else { &[2, 10] };
+                for t in ttls {
+                    v.push(Act::Reg(p, n, *t));
+                }
+            }
+        }
+        for p in 0..2u8 {
+            for n in 0..3u8 {
+                v.push(Act::Unreg(p, n));
+            }
+        }
+        for n in [3u8, 0, 1] {
+            for c in 0..4u8 {
+                if (c == 1 && self.cookies.is_empty()) || (c == 2 && self.cookies.len() < 2) {
+                    continue;
+                }
+                v.push(Act::Disc(n, c, false));
+                if c != 3 {
+                    v.push(Act::Disc(n, c, true));
+                }
+            }
+        }
+        v.push(Act::Advance(1));
+        v.push(Act::Advance(8));
+        v
+    }
+
+    fn step(&mut self, a: &Act) -> Result<(), String> {
+        let salt = self.salt;
+        self.step_inner(a).map_err(|m| if m.contains("[salt=") { m } else { format!("{m} [salt={salt}]") })
+    }
 
     fn canon(&self) -> Vec<u8> {
         let live: Vec<((u8, u8), u64)> = self.live.iter().map(|(k, (_, dl))| (*k, dl - self.now)).collect();
@@ -426,18 +395,44 @@ impl System for Sys {
 }
 
 pub fn run(ctx: &Ctx) -> Outcome {
+    let ctx = ctx.clone();
+    // constant entropy seed: hash orders (and therefore counts) do not depend on VERIF_SEED
+    match mc::isolated(0, move || run_inner(&ctx)) {
+        Ok(o) => o,
+        Err(p) => {
+            let mut o = Outcome::default();
+            o.machinery(format!("check body panicked: {p}"));
+            o
+        }
+    }
+}
+
+fn salt_of(msg: &str) -> Option<u64> {
+    let i = msg.rfind("[salt=")?;
+    msg[i + 6..].split(']').next()?.parse().ok()
+}
+
+fn run_inner(ctx: &Ctx) -> Outcome {
     let mut out = Outcome::default();
-    let seed = ctx.seed;
     let cfg = json!({"limits": "ttl 2..10, per_peer 2, total 3"});
     if let Some(case) = &ctx.replay {
         out.evaluations = 1;
-        if let Err(m) = bfs::replay_history(Sys::new(seed), case) {
+        let sys = match case["salt"].as_u64() {
+            Some(salt) => {
+                if !align_salt(salt) {
+                    out.machinery("replay: could not reach the recorded hash-seed position");
+                }
+                Sys::build(salt)
+            }
+            None => Sys::new(),
+        };
+        if let Err(m) = bfs::replay_history(sys, case) {
             out.violation(bfs::signature_of(&m), m, case.clone());
         }
         return out;
     }
-    let depth = ctx.tier.pick(5, 7);
-    let (st, v) = bfs::bfs_replay(|| Sys::new(seed), depth, ctx.tier.pick(150_000, 1_500_000));
+    let depth = std::env::var("C51_DEPTH").ok().and_then(|s| s.parse().ok()).unwrap_or(ctx.tier.pick(5, 7));
+    let (st, v) = bfs::bfs_replay(Sys::new, depth, ctx.tier.pick(300_000, 3_000_000));
     bfs::record(&mut out, &cfg, &st, &v);
     for (k, g) in [("refreshes_accepted", &G_REFRESH), ("valid_ttl_refused", &G_REFUSED_LIMIT), ("invalid_ttl_refused", &G_REFUSED_TTL), ("registrations_expired", &G_EXPIRED), ("discoveries_with_cookie_hiding_live_registration", &G_COOKIE_FILTERED), ("cookie_namespace_mismatch_answers", &G_MISMATCH)] {
         out.count(k, g.load(SeqCst));
@@ -446,7 +441,7 @@ pub fn run(ctx: &Ctx) -> Outcome {
         out.machinery("vacuity: exploration never hit a limit refusal / ttl refusal / expiry / cookie-filtered discovery");
     }
     let ddepth = ctx.tier.pick(2, 3);
-    let (n, capped, v2) = bfs::dfs_all(|| Sys::new(seed), ddepth, 2_000_000);
+    let (n, capped, v2) = bfs::dfs_all(Sys::new, ddepth, 2_000_000);
     out.count("dfs_companion_sequences", n);
     out.evaluations += n;
     out.traces += n;
@@ -455,5 +450,11 @@ pub fn run(ctx: &Ctx) -> Outcome {
     }
     bfs::record(&mut out, &cfg, &Default::default(), &v2);
     out.notes.push(format!("bfs depth {depth}, dfs companion depth {ddepth}"));
+    // the hash-seed position of the violating instance belongs to the replay case
+    for v in &mut out.violations {
+        if let Some(salt) = salt_of(&v.message) {
+            v.case["salt"] = json!(salt);
+        }
+    }
     out
 }
